@@ -21,7 +21,7 @@ func init() {
 		Level: "other",
 		Explanation: "Decided (structural necessary conditions): (R7.1) the 4x256 base-encoding tables (WinAnsi, MacRoman, Standard, PDFDoc) equal independent reference tables (golang.org/x/text code pages plus hand-written ISO 32000 Annex D deltas; documented accept sets where Annex D and the code page differ) entry by entry, and Symbol/ZapfDingbats agree on anchor entries; (R7.2) each encoding name is dispatched to the object carrying that name and that table, and Decode is a plain table lookup; (R7.3) decode priority ToUnicode > UTF-16 BOM > named encoding > raw bytes holds by dominance, BE/LE are bound to FE FF / FF FE, and every return passes NFC normalisation; (R7.4) no raw []byte->string conversion of shown bytes reaches returned text without UTF-8 validation; (R7.5) bfchar and bfrange destinations are decoded by the same UTF-16 decoder; (R7.6) surrogate-pair arithmetic is not performed in a type too narrow for the shift. " +
 			"Not decided: CMap parsing under every formatting policy, code-space width selection, UTF-16 decoding values beyond the shift-width condition.",
-		Rules: []func(*eng.Ctx){ruleFontFollowsGraphicsStateEvaluated, ruleCMapProgramsEvaluated, ruleHexToUnicodeEvaluated, ruleParsedCMapKept, callersAgreeRule("R7.CN", "font"), loopVarRule("R7.LV", "font", "text"), derivedFieldRule("R7.DF", "font", "text"), ruleDefaultEncodingPerFontType, ruleCMapNotLineBased, ruleEveryFontSubtypeRegistered, ruleEncodingTables, ruleNameDispatch, ruleDecodePriority, ruleUTF8Sink, ruleCMapDest, ruleNarrowShift, ruleNFCTotal, ruleDecodeNotMemoised, roleRule("R7.R", "font", "text"), ruleBfRangeCarry, ruleWidthFromSource, ruleByteAssembly, ruleSearchKeyIsSortKey, ruleUnitDecoderReads},
+		Rules: []func(*eng.Ctx){ruleEncodingNamesEvaluated, ruleFontFollowsGraphicsStateEvaluated, ruleCMapProgramsEvaluated, ruleHexToUnicodeEvaluated, ruleParsedCMapKept, callersAgreeRule("R7.CN", "font"), loopVarRule("R7.LV", "font", "text"), derivedFieldRule("R7.DF", "font", "text"), ruleDefaultEncodingPerFontType, ruleCMapNotLineBased, ruleEveryFontSubtypeRegistered, ruleEncodingTables, ruleNameDispatch, ruleDecodePriority, ruleUTF8Sink, ruleCMapDest, ruleNarrowShift, ruleNFCTotal, ruleDecodeNotMemoised, roleRule("R7.R", "font", "text"), ruleBfRangeCarry, ruleWidthFromSource, ruleByteAssembly, ruleSearchKeyIsSortKey, ruleUnitDecoderReads},
 	})
 }
 
